@@ -1,0 +1,48 @@
+//! Verification hooks (cargo feature `verif-hooks`, off by default).
+//!
+//! Re-exports of crate-internal items so that an external harness crate can
+//! drive individual functions of the implementation. No behaviour is added or
+//! changed here.
+
+pub mod arithmetic {
+    pub use crate::arithmetic::*;
+}
+pub mod ast {
+    pub use crate::ast::*;
+}
+pub mod number {
+    pub use crate::number::*;
+}
+pub mod prefix {
+    pub use crate::prefix::*;
+}
+pub mod prefix_parser {
+    pub use crate::prefix_parser::AcceptsPrefix;
+}
+pub mod product {
+    pub use crate::product::*;
+}
+pub mod quantity {
+    pub use crate::quantity::*;
+}
+pub mod unit {
+    pub use crate::unit::*;
+}
+pub mod span {
+    pub use crate::span::*;
+}
+pub mod tokenizer {
+    pub use crate::tokenizer::*;
+}
+pub mod parser {
+    pub use crate::parser::*;
+}
+pub mod typed_ast {
+    pub use crate::typed_ast::*;
+}
+pub mod math {
+    pub use crate::math::*;
+}
+pub mod pretty_print {
+    pub use crate::pretty_print::*;
+}
